@@ -457,6 +457,10 @@ func (w *World) genRollout(flagKey, salt string, nvars int) *J {
 		}
 		if r.P(p.PMalformed) {
 			bucketBy = r.Pick([]string{"//", "/a~2", "/"})
+			if kind == "" && r.P(0.7) { // only a reference (contextKind present) can be syntactically invalid
+				kind = r.Pick(kinds)
+				ro.Set("contextKind", JStr(kind))
+			}
 		}
 	}
 	var weights []int64
@@ -778,6 +782,38 @@ func (w *World) noise(doc *J, depth int) {
 			kv := KV{r.Pick([]string{"unknownProp", "_x", "Key", "extra"}), w.anyValue(0)}
 			doc.O = append(doc.O[:pos:pos], append([]KV{kv}, doc.O[pos:]...)...)
 		}
+		// hand-written documents leave default-valued scalars out: a later array element must not inherit
+		// what an earlier one spelled out
+		if r.P(0.5) {
+			has := func(k string) bool {
+				for _, kv := range doc.O {
+					if kv.K == k {
+						return true
+					}
+				}
+				return false
+			}
+			listItem := has("key") || has("values") || has("weight")
+			kept := doc.O[:0:0]
+			for _, kv := range doc.O {
+				isZero := kv.V.K == 'd' && kv.V.N == 0 && kv.V.Big == nil
+				isFalse := kv.V.K == 'b' && !kv.V.B
+				drop := false
+				switch kv.K {
+				case "variation":
+					drop = isZero && listItem
+				case "weight":
+					drop = isZero && has("variation")
+				case "untracked", "negate", "trackEvents", "trackEventsFallthrough", "unbounded", "deleted":
+					drop = isFalse
+				}
+				if drop && r.P(0.6) {
+					continue
+				}
+				kept = append(kept, kv)
+			}
+			doc.O = kept
+		}
 		for i := range doc.O {
 			kv := doc.O[i]
 			if kv.V.K == 'a' && len(kv.V.A) == 0 && r.P(0.2) {
@@ -806,6 +842,9 @@ func GenEval(r *Rng, p *Profile) *EvalCase {
 		}
 		if r.P(0.15) {
 			return 2
+		}
+		if r.P(0.2) {
+			return 4
 		}
 		return 1
 	}
